@@ -4,7 +4,7 @@
    ANY matcher [fnm] (the C code calls the C library's); those about patterns are for [glob_match], which every run
    compares with libc fnmatch and with cmdline/fnmatch.c. *)
 From Coq Require Import NArith List Bool.
-From Snap.Filter Require Import GlobModel GlobProofs FilterModel FilterProofs.
+From Snap.Filter Require Import GlobModel GlobProofs FilterModel FilterProofs ParseSpec.
 Import ListNotations.
 Local Open Scope N_scope.
 
@@ -130,12 +130,39 @@ Theorem C18_parse_path_dir_form : forall incl cs c, Forall good_comp cs -> good_
   filter_parse incl (join_path (cs ++ [c]) ++ [SLASH]) = Some (mkFilter incl (join_path (cs ++ [c])) false true true).
 Proof. exact parse_path_dir_form. Qed.
 
+(* the complete specification: accepted iff the components (text split at '/') are well formed -- every component
+   holds a byte other than '.', except that the first may be empty (leading slash) and the last may be empty
+   (trailing slash) -- and a text with an inner slash starts with a slash; flags and stored pattern as computed
+   by [parse_spec] *)
+Theorem C18_filter_parse_spec : forall incl pat, filter_parse incl pat = parse_spec incl pat.
+Proof. exact filter_parse_spec. Qed.
+Theorem C18_filter_parse_accepts : forall incl pat,
+  (exists f, filter_parse incl pat = Some f) <->
+  (let (c, rest) := split_str pat in
+   comps_ok c rest = true /\
+   match rest with
+   | [] => True
+   | _ :: more => (is_nil more && is_nil (last rest []) = true) \/ is_nil c = true
+   end).
+Proof. exact filter_parse_accepts. Qed.
+
 (* --- hidden files, content / temporary / lock files ------------------------------------------------------------ *)
 Theorem C18_content_lock_tmp_always_excluded : forall fnm nohidden contents fl disk dir sub name isdir c,
   In c contents ->
   (dir ++ sub = c \/ dir ++ sub = c ++ SUFFIX_TMP \/ dir ++ sub = c ++ SUFFIX_LOCK) ->
   scan_skips fnm nohidden contents fl disk dir sub name isdir = true.
 Proof. exact content_lock_tmp_always_excluded. Qed.
+(* at full strength (any spelling of the content path) the rule is REFUTED: elem.c:341-364 compares text.
+   Witness: data dir /d/, configuration "content /d/./content": the entry /d/content is not skipped.
+   The check replays the witness on the real binary.  C18_content_lock_tmp_always_excluded above is the partial
+   theorem, with the exact extra hypothesis (the configured path is literally <data dir><sub>). *)
+Theorem C18_content_excluded_refuted :
+  exists fnm nohidden contents fl disk dir sub name isdir c,
+    In c contents /\ same_file (dir ++ sub) c /\
+    scan_skips fnm nohidden contents fl disk dir sub name isdir = false.
+Proof. exact content_excluded_refuted. Qed.
+Theorem C18_content_excluded_full_is_false : ~ content_excluded_full.
+Proof. exact content_excluded_full_is_false. Qed.
 Theorem C18_content_spec : forall contents path,
   filter_content contents path = true <->
   exists c, In c contents /\ (path = c \/ path = c ++ SUFFIX_TMP \/ path = c ++ SUFFIX_LOCK).
@@ -182,9 +209,11 @@ Print Assumptions C18_file_rule_last_component.
 Print Assumptions C18_parse_rejects_dots.
 Print Assumptions C18_parse_rejects_double_slash.
 Print Assumptions C18_parse_rejects_relative.
+Print Assumptions C18_filter_parse_spec.
 Print Assumptions C18_parse_path_file_form.
 Print Assumptions C18_parse_path_dir_form.
 Print Assumptions C18_content_lock_tmp_always_excluded.
+Print Assumptions C18_content_excluded_refuted.
 Print Assumptions C18_selection_exact.
 Print Assumptions C18_disk_list_spec.
 
@@ -229,7 +258,9 @@ Example C18_nonvacuous_parse :
   filter_parse true [97; 47; 98] = None /\                         (* a/b *)
   filter_parse true [47; 97; 47; 47; 98] = None /\                 (* /a//b *)
   filter_parse true [47; 97; 47; 98; 47] = Some (mkFilter true [47; 97; 47; 98] false true true) /\
-  good_comp [97; 46] /\ good_comp [46; 97].
+  good_comp [97; 46] /\ good_comp [46; 97] /\
+  split_str [47; 97; 47; 98; 47] = ([], [[97]; [98]; []]) /\ comps_ok [] [[97]; [98]; []] = true /\
+  comps_ok [] [[97]; [46; 46]; [98]] = false /\ comps_ok [97] [[98]] = true /\ parse_spec true [97; 47; 98] = None.
 Proof. vm_compute. repeat split. Qed.
 
 Example C18_nonvacuous_selection :
